@@ -457,13 +457,13 @@ def dumpTrace (w : World) (m : Machine) : List String :=
   if m.cur.prog = "-" then [] else dtLines w m.cs m.cur
 
 /-- the value `dump_trace` returns: inside the loop over the OUTER frames, `if (strcmp (ftd.name, "heart_beat") == 0)
-    ret = p->ob ? p->ob->name : 0;` — `p->ob` is the object register SAVED in the element that opens the frame, i.e.
-    the object that was current when `heart_beat` was called (not `p[1].ob`); an innermost `heart_beat` frame is not
-    looked at; the last match wins -/
+    ret = p[1].ob ? p[1].ob->name : 0;` — the object of the frame the element opens (after the fix; it used to be
+    `p->ob`, the object register saved by the CALLER of `heart_beat`, which is NULL when the driver makes the call);
+    an innermost `heart_beat` frame is not looked at; the last match wins -/
 def dtRetGo (w : World) : List CsEntry → String → String
   | e :: e' :: rest, acc =>
     let acc' := if e.kind % (frameMask + 1) = frameFunction ∧ w.fnName e'.prog e.tableIndex = "heart_beat"
-                then (if e.ob = "-" then "0" else e.ob) else acc
+                then (if e'.ob = "-" then "0" else e'.ob) else acc
     dtRetGo w (e' :: rest) acc'
   | _, acc => acc
 
